@@ -301,3 +301,13 @@ def assert_same_raises(self, other, ignore_provenance=False):
     if not ignore_provenance:
         self.provenances.assert_equals(other.provenances)
     raise AssertionError("differ in an undetected way")
+
+
+def unsafe_int_cast(self, nodes):
+    nodes = np.array(nodes, dtype=np.int32)
+    return self._ll_tables.subset(nodes)
+
+
+def safe_int_cast(self, nodes):
+    nodes = util.safe_np_int_cast(nodes, np.int32)
+    return self._ll_tables.subset(nodes)
